@@ -27,6 +27,8 @@ LEMMA NextInd == IndInv /\ [LNext]_lvars => IndInv'
   OBVIOUS
 <1>1. CASE Begin
   BY <1>1 DEF Begin, IndInv, Phases
+<1>7. CASE Retry
+  BY <1>7 DEF Retry, IndInv, Phases
 <1>2. ASSUME NEW s \in Statuses, Nested(s) PROVE IndInv'
   BY <1>2 DEF Nested, IndInv, Phases
 <1>3. ASSUME NEW s \in Statuses, SolveK(s) PROVE IndInv'
@@ -63,7 +65,7 @@ LEMMA NextInd == IndInv /\ [LNext]_lvars => IndInv'
   BY <1>5 DEF GetRaises, lvars, IndInv
 <1>6. CASE UNCHANGED lvars
   BY <1>6 DEF lvars, IndInv
-<1> QED BY <1>1, <1>2, <1>3, <1>4, <1>5, <1>6 DEF LNext
+<1> QED BY <1>1, <1>2, <1>3, <1>4, <1>5, <1>6, <1>7 DEF LNext
 
 THEOREM SolvedIsMinimalForEveryKstar == LSpec => [](SolvedMeansProvenMinimal /\ InconclusiveNeverSolved)
 <1>1. IndInv => SolvedMeansProvenMinimal /\ InconclusiveNeverSolved
